@@ -15,6 +15,7 @@ func setPlaceholderNames(n *ast.MsgNode) {
 	// Step 1: Determine representative nodes and build preliminary map
 	var (
 		baseNameToRepNodes  = make(map[string][]ast.Node)
+		baseNames           []string // keys of baseNameToRepNodes in order of first appearance
 		equivNodeToRepNodes = make(map[ast.Node]ast.Node)
 	)
 
@@ -36,6 +37,7 @@ func setPlaceholderNames(n *ast.MsgNode) {
 
 		if nodes, ok := baseNameToRepNodes[baseName]; !ok {
 			baseNameToRepNodes[baseName] = []ast.Node{node}
+			baseNames = append(baseNames, baseName)
 		} else {
 			var isNew = true
 			var str = node.String()
@@ -54,7 +56,11 @@ func setPlaceholderNames(n *ast.MsgNode) {
 
 	// Step 2: Build final maps of name to representative node
 	var nameToRepNodes = make(map[string]ast.Node)
-	for baseName, nodes := range baseNameToRepNodes {
+	// (in order of first appearance, as the official implementation does: the
+	// suffixed names of different base names can collide, and who gets which
+	// must not depend on map iteration order)
+	for _, baseName := range baseNames {
+		var nodes = baseNameToRepNodes[baseName]
 		if len(nodes) == 1 {
 			nameToRepNodes[baseName] = nodes[0]
 			continue
@@ -63,12 +69,14 @@ func setPlaceholderNames(n *ast.MsgNode) {
 		var nextSuffix = 1
 		for _, node := range nodes {
 			for {
+				// a suffixed name must not coincide with another placeholder's base
+				// name (as in the official implementation)
 				var newName = baseName + "_" + strconv.Itoa(nextSuffix)
-				if _, ok := nameToRepNodes[newName]; !ok {
+				nextSuffix++
+				if _, ok := baseNameToRepNodes[newName]; !ok {
 					nameToRepNodes[newName] = node
 					break
 				}
-				nextSuffix++
 			}
 		}
 	}
